@@ -2,6 +2,8 @@
 """tools/agent_prompt.py <PROP> <worktree>: prints the prompt given to a mutation sub-agent (property text only)."""
 import json, sys
 pid, wt = sys.argv[1], sys.argv[2]
+focus = sys.argv[3] if len(sys.argv) > 3 else ""
+FOCUS = {"redis": "\n\nFOCUS FOR THIS ROUND: make the change in the Redis client (files under repid/connections/redis/), i.e. break the property for users of the Redis broker. There is no Redis server here: for demo.py write your own small in-process stand-in for the `redis.asyncio` connection object (assign it to `broker.conn` of a RedisMessageBroker constructed with any URL; it needs only the handful of commands the client really issues - lists, sorted sets, hashes, scan, and `pipeline(transaction=True)` as an async context manager whose queued commands run at `execute()`), implementing the documented semantics of those Redis commands faithfully, and drive the real client code through it.", "": ""}[focus]
 p = {json.loads(l)["id"]: json.loads(l) for l in open("/verif/properties.jsonl")}[pid]
 print(f"""You are working on a scratch copy of the open-source Python project aleksul/repid (a small asyncio job-queue framework: producers enqueue jobs, workers run actors with retries, delays, cron and results over in-memory, Redis or RabbitMQ brokers). Your copy is the git worktree {wt} — work ONLY inside that directory (never touch /repo or /verif or other directories under /tmp/wt). Python: /venv/bin/python. Always run with PYTHONPATH={wt} so that your copy is the one imported, e.g.
   cd {wt} && PYTHONPATH={wt} /venv/bin/python -m pytest -q -p no:cacheprovider --timeout=900 --continue-on-collection-errors
@@ -14,7 +16,7 @@ Statement: {p['statement']}
 Quantified over: {p['quantifier']['text']}
 Why the existing tests do not settle it: {p['why_tests_cant']}
 
-YOUR TASK: make a change to the library source (files under {wt}/repid/) that BREAKS this property, while the package still imports and the existing test suite still passes exactly as before (all 194). The change must look like a realistic regression (a refactor, an 'optimisation', an off-by-one, a reordered await, a changed comparison, a dropped branch, state shared where it should not be ...), and it must be SUBTLE: it should need something specific to manifest — a particular interleaving or timing, a cancellation/crash/fault at a particular point, a multi-step sequence of operations, an unusual or boundary input, or two cooperating sites that each look fine alone. Do NOT make a change that ordinary use would expose at once (e.g. every job failing).
+YOUR TASK: make a change to the library source (files under {wt}/repid/) that BREAKS this property, while the package still imports and the existing test suite still passes exactly as before (all 194). The change must look like a realistic regression (a refactor, an 'optimisation', an off-by-one, a reordered await, a changed comparison, a dropped branch, state shared where it should not be ...), and it must be SUBTLE: it should need something specific to manifest — a particular interleaving or timing, a cancellation/crash/fault at a particular point, a multi-step sequence of operations, an unusual or boundary input, or two cooperating sites that each look fine alone. Do NOT make a change that ordinary use would expose at once (e.g. every job failing).{FOCUS}
 
 Also write a demonstration {wt}/demo.py: a standalone script (run as `cd {wt} && PYTHONPATH={wt} /venv/bin/python demo.py`) that exits 0 on the UNCHANGED tree and exits non-zero (printing what went wrong) WITH your change. Verify both: use `git diff -- repid > patch.diff; git checkout -- repid; ...; git apply patch.diff` to run demo.py and the test suite on both versions. NEVER use `git stash`: the stash is shared between all worktrees of this repository and other people are working in sibling worktrees. The demo should finish in well under a minute.
 
